@@ -317,21 +317,19 @@ UPGRADER:
 			}
 		case stateStatusBefore:
 			switch c {
-			case ' ':
+			case ' ', '\n':
+				return ErrInvalidHTTPStatus
+			case '\r':
+				// the reason phrase may be empty.
+				p.Processor.OnStatus(p, p.statusCode, "")
+				p.statusCode = 0
+				p.nextState(stateStatusLF)
 			default:
-				if isAlpha(c) {
-					start = i
-					p.nextState(stateStatus)
-				}
-				continue
+				start = i
+				p.nextState(stateStatus)
 			}
-			return ErrInvalidHTTPStatus
 		case stateStatus:
 			switch c {
-			case ' ':
-				if p.status == "" {
-					p.status = string(data[start:i])
-				}
 			case '\r':
 				if p.status == "" {
 					p.status = string(data[start:i])
